@@ -3,6 +3,7 @@ import os, subprocess, time
 from .common import HARNESS, env, log
 
 _built = {}
+HOOKS_OFF = set()
 
 
 class BuildError(Exception):
@@ -54,6 +55,21 @@ def build(profile):
     else:
         raise KeyError(profile)
     p = subprocess.run(cmd, cwd=HARNESS, env=e, stdout=subprocess.PIPE, stderr=subprocess.STDOUT, text=True)
+    if p.returncode != 0 and profile in ("debug", "release"):
+        # The tree may have been edited in a way that breaks only the cfg(jubako_verif) hook lines. Every check but C07
+        # works without the hooks: rebuild with the guard off (own target dir) and say so.
+        tail = "\n".join(p.stdout.splitlines()[-12:])
+        log(f"[build] {profile} build with --cfg jubako_verif failed; retrying with the hooks off. Last lines:\n{tail}")
+        nohook = os.path.join(HARNESS, "target-nohook")
+        p2 = subprocess.run(cmd + ["--target-dir", nohook], cwd=HARNESS, env=env({"RUSTFLAGS": ""}), stdout=subprocess.PIPE,
+                            stderr=subprocess.STDOUT, text=True)
+        if p2.returncode == 0:
+            b = os.path.join(nohook, profile, "jbkverif")
+            if os.path.exists(b):
+                HOOKS_OFF.add(profile)
+                log(f"[build] {profile}: built WITHOUT hooks ({time.time()-t0:.1f}s); C07 cannot run in this state")
+                _built[profile] = b
+                return b
     if p.returncode != 0:
         tail = "\n".join(p.stdout.splitlines()[-40:])
         raise BuildError(f"build of profile {profile} failed:\n{tail}")
